@@ -15,7 +15,7 @@ func init() {
 		ID:    "C19",
 		Level: "exploration",
 		Race:  true,
-		Rule:  "case = (2..16 clients, each a goroutine with its own statement list, ExecuteCtx, plans and literals; store topology private / shared read-only / shared read-write with per-client key prefixes; a pre-drawn schedule deciding, at every storage call, which client runs next). Each case is executed under the seeded token scheduler (race detector armed, hand-off invisible to it) and then again with the solo schedule; every statement's result must equal its solo result and no detector report may involve kvql frames. distinct_nontrivial counts distinct interleavings (hash of the realised who-runs-next trace) that contained at least one context switch.",
+		Rule:  "case = (2..16 clients, each a goroutine with its own statement list, ExecuteCtx, plans and literals; store topology private / shared read-only / shared read-write with per-client key prefixes; a pre-drawn schedule deciding, at every storage call, which client runs next). Each case is executed under the seeded token scheduler (race detector armed, hand-off invisible to it) and then again with the solo schedule; every statement's result must equal its solo result and no detector report may involve kvql frames. distinct_nontrivial counts distinct interleavings (hash of the realised who-runs-next trace) that contained at least one context switch. 4 % of the non-contended cases are cache floods: every client runs the same anchor statements first, in the middle and last while one client issues 70..2200 distinct regular-expression patterns or statement texts in between; some byte-identical statements are padded to 300..5000 bytes; 2 % of the cases use 17..40 clients; in the shared read-only topology byte-identical statements are also compared with each other within the concurrent run.",
 		Assumptions: []string{
 			"amd64 (TSO) and Go's compiler reloading a package variable after a call: the token hand-off is a plain variable spin inside //go:norace functions",
 			"yield granularity is one storage call: interference that needs a context switch at a point that is not a storage call and leaves no state behind at the next one is not reachable",
